@@ -64,6 +64,9 @@ def run(ctx):
     for res in ctx.harness_parallel("tle_replay.py", payloads, procs=16):
         ctx.absorb(res)
     ctx.extra["stream_texts"] = len(streams)
+    # ---- the repository's own test-suite: every TLE text it parses, judged by the column table (TleTrace.tla) ----------------
+    from checks import suite
+    suite.run(ctx, "C12", "tles")
     ctx.exhaustive = False
     ctx.assumptions += [
         "classification is always 'U' (the writer has no other); zero is written canonically ('00000-0', ' .00000000') and a "
